@@ -29,6 +29,7 @@ SUITES = {
     "C03": [("c03", ("check", ""))],
     "C04": [("c14", ("panic", "")), ("c01", ("panic", "")), ("c03", ("panic", "")), ("c02", ("panic", "")), ("c08", ("panic", "")), ("c16", ("panic", ""))],
     "C08": [("c08", ("check", "bounds:"))],
+    "C09": [("c09", ("check", "zone:"))],
     "C14": [("c14", ("check", ""))],
     "C16": [("c16", ("check", "bound:"))],
     "C17": [("c01", ("check", "comments:")), ("c02", ("check", "comments:"))],
@@ -465,6 +466,7 @@ FUNCTIONS = {
     "C03": ["opening_hours::OpeningHours::{state, is_open, is_closed, is_unknown, next_change, iter_from}", "opening_hours::opening_hours::TimeDomainIterator::{new, next, consume_until_next_kind}"],
     "C04": ["every function reached by the suites c14, c01, c02, c03, c08, c16 (a panic on any feasible path is a counterexample)"],
     "C08": ["opening_hours::OpeningHours::{state, next_change, iter_range, iter_range_naive, next_change_hint, schedule_at}"],
+    "C09": ["opening_hours::localization::TzLocation::{naive, datetime}", "opening_hours::OpeningHours::<TzLocation<_>>::{state, iter_range}"],
     "C16": ["opening_hours::opening_hours::TimeDomainIterator::{next, consume_until_next_kind} with Context::approx_bound_interval_size"],
     "C17": ["opening_hours::schedule::Schedule::{from_ranges, insert}", "opening_hours::schedule::IntoIter::next", "opening_hours_syntax::sorted_vec::UniqueSortedVec::union",
             "opening_hours::opening_hours::TimeDomainIterator::next"],
